@@ -1004,4 +1004,136 @@ theorem joinBody_rows (x y : Table) (cols : List String) (mode : Mode) (ms : Lis
   simp only [joinBody, joinTableOf, expand_eq_map, keyRows_eq_map, List.map_map, Function.comp_def,
     List.append_assoc]
 
+/-! ### xor, mode 'r' (the rows of the right table without a partner) -/
+
+@[simp] theorem xorEmit1_onL (a : Grp) : (xorEmit 1).onL a = [] := rfl
+@[simp] theorem xorEmit1_onR (a : Grp) : (xorEmit 1).onR a = [a.2] := rfl
+@[simp] theorem xorEmit1_onM (a b : Grp) : (xorEmit 1).onM a b = [] := rfl
+
+/-- a right group without a partner among the left groups -/
+def unmatchedR (L : List Grp) (b : Grp) : Bool := L.all fun a => cmp a.1 b.1 != .eq
+
+theorem unmatchedR_cons_ne {a b : Grp} {L : List Grp} (h : cmp a.1 b.1 ≠ .eq) :
+    unmatchedR (a :: L) b = unmatchedR L b := by
+  simp [unmatchedR, h]
+
+theorem mergeG_xor1 : ∀ (L R : List Grp), SortedG L → SortedG R →
+    let m := mergeG (xorEmit 1) L R
+    m.1 ++ m.2.2.map (·.2) = (R.filter (unmatchedR L)).map (·.2) := by
+  intro L
+  induction L with
+  | nil =>
+    intro R _ _
+    simp only [mergeG, List.nil_append]
+    congr 1
+    symm; apply List.filter_eq_self.2
+    intro x _; simp [unmatchedR]
+  | cons a as ihL =>
+    intro R
+    induction R with
+    | nil => intro _ _; simp [mergeG_nil_right]
+    | cons b bs ihR =>
+      intro hL hR
+      rw [mergeG.eq_def]
+      simp only
+      cases h : cmp a.1 b.1 with
+      | lt =>
+        simp only [xorEmit1_onL, List.nil_append]
+        have := ihL (b :: bs) hL.tail hR
+        simp only at this
+        rw [this]
+        congr 1
+        apply List.filter_congr
+        intro b' hb'
+        symm; apply unmatchedR_cons_ne
+        rcases List.mem_cons.1 hb' with rfl | hb'
+        · rw [h]; decide
+        · rw [cmp_lt_trans h (hR.head b' hb')]; decide
+      | gt =>
+        have hu : unmatchedR (a :: as) b = true := by
+          simp only [unmatchedR, List.all_eq_true]
+          intro a' ha'
+          rcases List.mem_cons.1 ha' with rfl | ha'
+          · rw [h]; decide
+          · have h1 : cmp b.1 a.1 = .lt := cmp_lt_of_gt h
+            rw [cmp_gt_of_lt (cmp_lt_trans h1 (hL.head a' ha'))]; decide
+        simp only [xorEmit1_onR, List.filter_cons, hu, if_true, List.map_cons, List.cons_append,
+          List.nil_append]
+        congr 1
+        exact ihR hL hR.tail
+      | eq =>
+        have hu : unmatchedR (a :: as) b = false := by
+          simp [unmatchedR, h]
+        simp only [xorEmit1_onM, List.nil_append, List.filter_cons, hu]
+        have := ihL bs hL.tail hR.tail
+        simp only at this
+        rw [this]
+        simp only [Bool.false_eq_true, if_false]
+        congr 1
+        apply List.filter_congr
+        intro b' hb'
+        symm; apply unmatchedR_cons_ne
+        rw [cmp_lt_of_eq_of_lt h (hR.head b' hb')]; decide
+
+theorem xorIds1_eq (lk rk : List Val) :
+    xorIds 1 lk rk = ((listbyG rk).filter (unmatchedR (listbyG lk))).flatMap (·.2) := by
+  have h := mergeRun_eq (xorEmit 1) (listbyG lk) (listbyG rk)
+  simp only at h
+  have hx := mergeG_xor1 _ _ (listbyG_sorted lk) (listbyG_sorted rk)
+  simp only at hx
+  rw [← h] at hx
+  simp only [xorIds, show ((1 : Nat) = 0) = False by simp, if_false]
+  rw [hx, List.flatMap_def]
+
+theorem xorIds1_nodup (lk rk : List Val) : (xorIds 1 lk rk).Nodup := by
+  rw [xorIds1_eq, List.flatMap_def]
+  have h := listbyG_nodup rk
+  rw [List.flatMap_def, List.nodup_iff_pairwise_ne, List.pairwise_flatten] at h
+  rw [List.nodup_iff_pairwise_ne, List.pairwise_flatten]
+  constructor
+  · intro l hl
+    obtain ⟨g, hg, rfl⟩ := List.mem_map.1 hl
+    exact h.1 g.2 (List.mem_map.2 ⟨g, (List.mem_filter.1 hg).1, rfl⟩)
+  · exact h.2.sublist (List.filter_sublist.map _)
+
+theorem mem_xorIds1 {lk rk : List Val} (hk : ∀ k ∈ rk, cmp (.cell .none) k ≠ .eq) {j : Nat} :
+    j ∈ xorIds 1 lk rk ↔
+      j < rk.length ∧ ∀ i, i < lk.length → cmp (keyAt lk i) (keyAt rk j) ≠ .eq := by
+  rw [xorIds1_eq]
+  simp only [List.mem_flatMap, List.mem_filter, unmatchedR, List.all_eq_true, bne_iff_ne, ne_eq]
+  constructor
+  · rintro ⟨b, ⟨hb, hu⟩, hjb⟩
+    obtain ⟨kj, hkj, hkb⟩ := listbyG_keys rk b hb j hjb
+    refine ⟨(List.getElem?_eq_some_iff.1 hkj).1, ?_⟩
+    intro i hi hc
+    obtain ⟨a, ha, hia⟩ := mem_listbyG.2 hi
+    obtain ⟨ki, hki, hka⟩ := listbyG_keys lk a ha i hia
+    rw [keyAt_of_get hki, keyAt_of_get hkj, cmp_congr hka hkb] at hc
+    exact hu a ha (by simp [hc])
+  · rintro ⟨hj, hall⟩
+    obtain ⟨b, hb, hjb⟩ := mem_listbyG.2 hj
+    obtain ⟨kj, hkj, hkb⟩ := listbyG_keys rk b hb j hjb
+    refine ⟨b, ⟨hb, ?_⟩, hjb⟩
+    intro a ha hc
+    have hc : cmp a.1 b.1 = .eq := by simpa using hc
+    by_cases hl : lk = []
+    · subst hl
+      rw [listbyG_nil] at ha
+      simp at ha; subst ha
+      exact hk kj (List.mem_of_getElem? hkj) (cmp_eq_trans hc (cmp_eq_symm hkb))
+    · have hne := listbyG_nonempty hl a ha
+      obtain ⟨i, hia⟩ := List.exists_mem_of_ne_nil _ hne
+      obtain ⟨ki, hki, hka⟩ := listbyG_keys lk a ha i hia
+      apply hall i (List.getElem?_eq_some_iff.1 hki).1
+      rw [keyAt_of_get hki, keyAt_of_get hkj, cmp_congr hka hkb]; exact hc
+
+theorem xorIds1_perm {lk rk : List Val} (hk : ∀ k ∈ rk, cmp (.cell .none) k ≠ .eq) :
+    (xorIds 1 lk rk).Perm
+      ((List.range rk.length).filter fun j =>
+        (List.range lk.length).all fun i => cmp (keyAt lk i) (keyAt rk j) != .eq) := by
+  rw [List.perm_ext_iff_of_nodup (xorIds1_nodup lk rk) (List.nodup_range.sublist List.filter_sublist)]
+  intro j
+  rw [mem_xorIds1 hk, List.mem_filter]
+  simp
+
 end Pyg
